@@ -343,6 +343,10 @@ def run(tier: str, replay: str | None = None):
 
     # 4. model
     model_ok = proof is not None and not any("build failed" in b for b in proof.broken)
+    if not model_ok and gen is not None:
+        # the proofs no longer build; the generated model itself may still compile and can then
+        # still be run (for the correspondence and for attributing failures to known findings)
+        model_ok, _ = lib.coq_make(["theories/Gen/Solve.vo", "theories/Gen/SolveAtoms.vo"], timeout=600)
     corr_mismatch = []
     model_by_case = {}
     if model_ok and terms:
@@ -405,6 +409,18 @@ def run(tier: str, replay: str | None = None):
     # 6. verdicts
     found_input = False
     reported = set()
+    for cse, f in e2e_fail[:10]:
+        fid = None
+        if f.get("kind") == "upper":
+            fid = F_ANY if f["uppers_any"] else F_INC if f["uppers_incomparable"] else F_CON if f["uppers_and_constraints"] else None
+        # an end-to-end failure is attributed only when the bounds are expressible in the model; they are not
+        # (arguments outside the atom universe), so every accepted call with a violated bound is reported
+        found_input = True
+        rep.violation({"kind": "failing-input", "input": cse, "observed": f, "candidate_finding": fid,
+                       "expected": "an accepted generic call chooses a value satisfying every bound pyanalyze derived and the declaration; same verdict for every argument order",
+                       "how_to_run": "./check C15 --replay <this file>"})
+    # failures no guard clause covers first, so that the replays shown name the new breakage
+    failures.sort(key=lambda f: (attribute(f[1], guard_clauses(bound_cases[f[0]])) is not None, f[0]))
     for ci, kind, detail in failures:
         bs = bound_cases[ci]
         g = guard_clauses(bs)
@@ -424,16 +440,6 @@ def run(tier: str, replay: str | None = None):
             "violated": kind, "guard_clauses": g, "model_agrees_with_impl": faithful,
             "how_to_run": "./check C15 --replay <this file>",
         })
-    for cse, f in e2e_fail[:10]:
-        fid = None
-        if f.get("kind") == "upper":
-            fid = F_ANY if f["uppers_any"] else F_INC if f["uppers_incomparable"] else F_CON if f["uppers_and_constraints"] else None
-        # an end-to-end failure is attributed only when the bounds are expressible in the model; they are not
-        # (arguments outside the atom universe), so every accepted call with a violated bound is reported
-        found_input = True
-        rep.violation({"kind": "failing-input", "input": cse, "observed": f, "candidate_finding": fid,
-                       "expected": "an accepted generic call chooses a value satisfying every bound pyanalyze derived; same verdict for every argument order",
-                       "how_to_run": "./check C15 --replay <this file>"})
     if corr_mismatch and not found_input:
         name, inp, i, m = corr_mismatch[0]
         rep.violation({"kind": "broken-correspondence", "correspondence": name, "input": inp, "observed": i, "model": m,
